@@ -33,11 +33,16 @@ namespace QM.Sys
 be) applied to the code; `false` = the code before the repair.  Every definition that depends on a
 flag takes the configuration as an instance argument, so every theorem of the library is a theorem
 about EVERY configuration unless it names one.
+* `selectWaits` — notes/C05-fixes/01 (`SelectState.unanswered`).
 * `exitReports` — notes/C14-fixes/01: the worker reports every terminated process
   (`Event::ProcessExited`) from `check_completed_processes`, before any ProcessResults carrying its
   result; the environment only uses it for resources (no routing, no awaits). -/
 class Cfg where
   exitReports : Bool := false
+  /-- notes/C05-fixes/01: a select with process sources evaluates nothing until every target has been
+  answered (result, failure or the "registered" placeholder); an already failed target is answered
+  with its error in the first answer -/
+  selectWaits : Bool := false
 
 /-- the code at /repo HEAD -/
 @[instance_reducible] def Cfg.head : Cfg := {}
@@ -146,6 +151,9 @@ structure Proc where
   awaiting : List (Pid × Option Val)
   /-- `Process.awaiting_failed`: awaited pids (of the current select) known to have failed -/
   awaitFailed : List Pid
+  /-- `SelectState.unanswered` (variant `selectWaits`; maintained always, read only by the variant):
+  process sources of the current select whose worker has not answered the await yet -/
+  unanswered : List Pid := []
   /-- the `Spawn` instruction at `pc` has been executed (operands popped, `Action::Spawn` emitted)
   and `notify_spawn` has not yet advanced the counter -/
   spawnIssued : Bool
@@ -256,8 +264,11 @@ def slice (prog : Prog) (now : Nat) (self : Pid) : Nat → Proc → Proc × Outc
         if ts.isEmpty then
           slice prog now self fuel { p with selInit := true, selStart := some now }
         else
-          ({ p with selInit := true, selStart := none,
+          ({ p with selInit := true, selStart := none, unanswered := ts,
                     awaiting := ts.foldl (fun a t => ainsert a t none) p.awaiting }, .awaitInit ts)
+      else if Cfg.selectWaits && !p.unanswered.isEmpty then
+        -- variant `selectWaits`: answers pending — `mark_selecting`, nothing is evaluated
+        (p, .blocked)
       else
         -- ensure_select_start_time + process_select_sources
         let start := p.selStart.getD now
@@ -268,6 +279,7 @@ def slice (prog : Prog) (now : Nat) (self : Pid) : Nat → Proc → Proc × Outc
           let ts := selTargets p srcs
           slice prog now self fuel
             { p1 with pc := p.pc + 1, selInit := false, selStart := none, acc := p.acc ++ [v], mailbox := mb,
+                      unanswered := [],
                       awaiting := p.awaiting.filter (fun kv => kv.1 ∉ ts),
                       awaitFailed := p.awaitFailed.filter (· ∉ ts) }
         | .fail => ({ p1 with result := some .err }, .failed)
@@ -348,16 +360,24 @@ def Proc.stillAwaiting (x : Proc) (awaited : Pid) : Bool :=
 /-- `Executor::notify_result` (Ok value): stored only if still awaited; re-queue if parked. -/
 def WorkerSt.notifyResultOk (w : WorkerSt) (awaiter awaited : Pid) (v : Val) : WorkerSt :=
   (w.modProc awaiter (fun x =>
-    if x.stillAwaiting awaited then { x with awaiting := ainsert x.awaiting awaited (some v) } else x)).wakeSelecting awaiter
+    if x.stillAwaiting awaited then
+      { x with awaiting := ainsert x.awaiting awaited (some v), unanswered := x.unanswered.filter (· ≠ awaited) }
+    else x)).wakeSelecting awaiter
 
 /-- `Executor::notify_failure`: a failed target is a ready source of the awaiter's current select. -/
 def WorkerSt.notifyFailure (w : WorkerSt) (awaiter awaited : Pid) : WorkerSt :=
   match w.procs awaiter with
   | some x =>
     if x.stillAwaiting awaited then
-      (w.modProc awaiter (fun x => { x with awaitFailed := sinsert x.awaitFailed awaited })).wakeSelecting awaiter
+      (w.modProc awaiter (fun x => { x with awaitFailed := sinsert x.awaitFailed awaited,
+                                            unanswered := x.unanswered.filter (· ≠ awaited) })).wakeSelecting awaiter
     else w
   | none => w
+
+/-- `Executor::notify_pending` (variant `selectWaits`): the target's worker has answered "not finished,
+you are registered" -/
+def WorkerSt.notifyPending (w : WorkerSt) (awaiter awaited : Pid) : WorkerSt :=
+  w.modProc awaiter (fun x => { x with unanswered := x.unanswered.filter (· ≠ awaited) })
 
 /-- `Worker::notify_result`. -/
 def WorkerSt.notifyResult (w : WorkerSt) (awaiter awaited : Pid) : Res → WorkerSt
@@ -373,7 +393,9 @@ def WorkerSt.completedStatus (w : WorkerSt) (p : Pid) : Option Res :=
     else if p ∈ w.spawning ∨ p ∈ w.selecting then none
     else match x.result with
       | some (.ok v) => some (.ok v)
-      | _ => none
+      -- variant `selectWaits`: a failed process is complete as well (its error is in this answer)
+      | some .err => if Cfg.selectWaits then some .err else none
+      | none => none
 
 def WorkerSt.resultOf (w : WorkerSt) (p : Pid) : Option Res :=
   match w.procs p with
@@ -551,7 +573,7 @@ def reportedOf (awaiter : Pid) (rs : Results) : List (Pid × Pid) :=
 def applyResults (w : WorkerSt) (awaiter : Pid) : Results → WorkerSt
   | [] => w
   | (t, some r) :: rest => applyResults (w.notifyResult awaiter t r) awaiter rest
-  | (_, none) :: rest => applyResults w awaiter rest
+  | (t, none) :: rest => applyResults (w.notifyPending awaiter t) awaiter rest
 
 def handleCmdWith (R : Rules) (s : Sys) (i : Wid) : Cmd → Sys
   | .misc => s
